@@ -394,4 +394,78 @@ def toCert (l : LinkedAcme) : AcmeProv :=
 /-- what the authority serves after the migration -/
 def migrate (p : AcmeProv) : AcmeProv := toCert (toLinked p)
 
+/-! ### the authority's provisioner collection (`authority/provisioner/collection.go`)
+
+  What the ACME handlers see of a provisioner comes from `Authority.LoadProvisionerByName` (the linker
+  middleware resolves `{provisionerID}` of the URL by NAME), while the admin API addresses provisioners by id.
+  `Collection` keeps one index per key: byID, byName, byTokenID (plus byKey and the sorted list for paging, which
+  no ACME decision reads). `Store` = LoadOrStore on each index, undone when a later one is taken; `Remove` deletes
+  the provisioner found by id from every index under ITS keys; `Update` = the two uniqueness tests, then Remove(old)
+  and Store(nu). The clause of C20 that hangs on it: after an administrator turns `requireEAB` on (or creates,
+  renames, removes a provisioner), the very next new-account under that name is decided on the new object. -/
+
+structure CProv where
+  id : Nat
+  name : Nat
+  tok : Nat          -- GetIDForToken(): "acme/" + name for an ACME provisioner
+  eab : Bool
+  deriving DecidableEq, Repr
+
+abbrev Idx := List (Nat × CProv)
+
+def Idx.look : Idx → Nat → Option CProv
+  | [], _ => none
+  | (k, p) :: rest, q => if k = q then some p else Idx.look rest q
+
+def Idx.del : Idx → Nat → Idx
+  | [], _ => []
+  | (k, p) :: rest, q => if k = q then Idx.del rest q else (k, p) :: Idx.del rest q
+
+structure Coll where
+  byID : Idx
+  byName : Idx
+  byTok : Idx
+  deriving DecidableEq, Repr
+
+def Coll.empty : Coll := ⟨[], [], []⟩
+
+/-- `Collection.Store`; `none` = refused (400), the collection is unchanged -/
+def Coll.store (c : Coll) (p : CProv) : Option Coll :=
+  if (c.byID.look p.id).isSome then none
+  else if (c.byName.look p.name).isSome then none
+  else if (c.byTok.look p.tok).isSome then none
+  else some ⟨(p.id, p) :: c.byID, (p.name, p) :: c.byName, (p.tok, p) :: c.byTok⟩
+
+/-- `Collection.Remove` -/
+def Coll.remove (c : Coll) (id : Nat) : Option Coll :=
+  match c.byID.look id with
+  | none => none
+  | some p => some ⟨c.byID.del id, c.byName.del p.name, c.byTok.del p.tok⟩
+
+/-- `Collection.Update` -/
+def Coll.update (c : Coll) (nu : CProv) : Option Coll :=
+  match c.byID.look nu.id with
+  | none => none
+  | some old =>
+    if old.name ≠ nu.name ∧ (c.byName.look nu.name).isSome then none
+    else if old.tok ≠ nu.tok ∧ (c.byTok.look nu.tok).isSome then none
+    else (c.remove old.id).bind (·.store nu)
+
+/-- what the linker middleware hands to the ACME handlers for a name in the URL -/
+def Coll.servedEAB (c : Coll) (name : Nat) : Option Bool := (c.byName.look name).map (·.eab)
+
+inductive CollOp where
+  | store (p : CProv)
+  | update (p : CProv)
+  | remove (id : Nat)
+  deriving DecidableEq, Repr
+
+/-- an operation that is refused leaves the collection as it was (the authority reports the error) -/
+def Coll.apply (c : Coll) : CollOp → Coll
+  | .store p => (c.store p).getD c
+  | .update p => (c.update p).getD c
+  | .remove id => (c.remove id).getD c
+
+def Coll.run (c : Coll) (ops : List CollOp) : Coll := ops.foldl Coll.apply c
+
 end Verif.EAB
